@@ -2,6 +2,8 @@ package checks
 
 import (
 	"fmt"
+	"reflect"
+	"strings"
 
 	"github.com/influxdata/influxql"
 	"verifharness/gen"
@@ -113,6 +115,24 @@ func c19One(c *Ctx, gc *GCase, sub string, local map[string]int64) {
 		}
 		local["answer-survives-caller-edit"]++
 	}
+	// a source list that is present but empty (built by a caller, or decoded)
+	// is the same as no source list
+	if rv := reflect.ValueOf(st); rv.Kind() == reflect.Ptr && rv.Elem().Kind() == reflect.Struct {
+		if f := rv.Elem().FieldByName("Sources"); f.IsValid() && f.CanSet() && f.Type() == reflect.TypeOf(influxql.Sources(nil)) && f.Len() == 0 {
+			for _, empty := range []influxql.Sources{{}, make(influxql.Sources, 0, 4)} {
+				f.Set(reflect.ValueOf(empty))
+				var pe influxql.ExecutionPrivileges
+				var ee error
+				mon.Try(func() { pe, ee = st.RequiredPrivileges() })
+				if fmt.Sprintf("%+v %v", pe, ee) != fmt.Sprintf("%+v %v", privs, perr) {
+					r.Violation("privileges-not-a-function-of-the-statement", det(fmt.Sprintf("with an empty (non-nil) source list the statement answers %+v (err %v); with no source list %+v", pe, ee, privs)))
+					return
+				}
+			}
+			f.Set(reflect.Zero(f.Type()))
+			local["empty-source-list"]++
+		}
+	}
 	if c19admin[kind] {
 		adm := false
 		for _, p := range privs {
@@ -201,10 +221,43 @@ func c19One(c *Ctx, gc *GCase, sub string, local map[string]int64) {
 				local["second-call-after-edit"]++
 			}
 		}
+		// a regex source given as a bound parameter names the same databases as
+		// the regex written out
+		if re := regexSourceSlot(gc); re >= 0 {
+			toks := append([]gen.Tok(nil), gc.G.B.Toks...)
+			src := toks[re].Val
+			toks[re].Text = "$re"
+			tmpl, _ := gen.Render(toks, gen.Layout{Spaced: true})
+			p := influxql.NewParser(strings.NewReader(tmpl))
+			p.SetParams(map[string]interface{}{"re": map[string]interface{}{"regex": src}})
+			var q *influxql.Query
+			var perr2 error
+			mon.Try(func() { q, perr2 = p.ParseQuery() })
+			if perr2 == nil && q != nil && len(q.Statements) == 1 {
+				bp, _ := q.Statements[0].RequiredPrivileges()
+				if fmt.Sprintf("%+v", bp) != fmt.Sprintf("%+v", privs) {
+					r.Violation("privileges-differ-for-bound-regex", det(fmt.Sprintf("template %q with re bound to /%s/ requires %+v; with the regex written out %+v", trunc(tmpl, 300), src, bp, privs)))
+					return
+				}
+				local["bound-regex-source"]++
+			}
+		}
 		local["select-checked"]++
 		local[fmt.Sprintf("subquery-depth.%d", subqDepth(sel.Sources))]++
 	}
 	local["ok"]++
+}
+
+// regexSourceSlot finds a regex token that stands as a measurement (it follows
+// FROM, a comma or a dot) in the generated token list, or -1.
+func regexSourceSlot(gc *GCase) int {
+	toks := gc.G.B.Toks
+	for i := 1; i < len(toks); i++ {
+		if toks[i].Name == "regex" && (toks[i-1].Text == "." || strings.EqualFold(toks[i-1].Text, "FROM")) {
+			return i
+		}
+	}
+	return -1
 }
 
 func parsedSelect(st influxql.Statement) *influxql.SelectStatement {
@@ -215,6 +268,46 @@ func parsedSelect(st influxql.Statement) *influxql.SelectStatement {
 		return w.Statement
 	}
 	return nil
+}
+
+// c19Many: statements with many sources whose INTO database is also one of
+// the databases read (a write-back), bare, under EXPLAIN and inside a subquery.
+func c19Many(c *Ctx, n, k int, local map[string]int64) {
+	r := c.R
+	var srcs []string
+	for i := 0; i < n; i++ {
+		srcs = append(srcs, fmt.Sprintf("db%d..m%d", i, i))
+	}
+	inner := fmt.Sprintf("SELECT v INTO db%d..out FROM %s", k, strings.Join(srcs, ", "))
+	for _, text := range []string{inner, "EXPLAIN " + inner, "EXPLAIN ANALYZE " + inner, "SELECT v FROM (" + inner + "), other..m", "SELECT v INTO db0..top FROM (" + inner + ")"} {
+		st, err := influxql.ParseStatement(text)
+		if err != nil {
+			r.Violation("privileges-error", map[string]interface{}{"sub": "many", "n": n, "k": k, "input": trunc(text, 200), "why": err.Error()})
+			return
+		}
+		privs, _ := st.RequiredPrivileges()
+		r.Eval(1)
+		r.DistinctStr(fmt.Sprintf("many|%d|%d|%s", n, k, text[:12]))
+		has := func(db string, want influxql.Privilege) bool {
+			for _, p := range privs {
+				if p.Name == db && (p.Privilege == want || p.Privilege == influxql.AllPrivileges) {
+					return true
+				}
+			}
+			return false
+		}
+		for i := 0; i < n; i++ {
+			if !has(fmt.Sprintf("db%d", i), influxql.ReadPrivilege) {
+				r.Violation("missing-read-privilege", map[string]interface{}{"sub": "many", "n": n, "k": k, "input": trunc(text, 200), "why": fmt.Sprintf("no read privilege on db%d among %d sources", i, n)})
+				return
+			}
+		}
+		if !has(fmt.Sprintf("db%d", k), influxql.WritePrivilege) {
+			r.Violation("missing-write-privilege", map[string]interface{}{"sub": "many", "n": n, "k": k, "input": trunc(text, 200), "why": fmt.Sprintf("no write privilege on the INTO database db%d, which is also one of the %d databases read", k, n)})
+			return
+		}
+		local["many-sources"]++
+	}
 }
 
 // c19Known recognises the cardinality statements without FROM.
@@ -235,6 +328,9 @@ func checkC19(c *Ctx) (string, bool, []string) {
 		case "select":
 			opt = gen.Opts{SubqDepth: 5, SubqProb: 0.5, MaxDepth: 1}
 			mask = -1
+		case "many":
+			c19Many(c, replayInt(c, "n"), replayInt(c, "k"), map[string]int64{})
+			return rule, false, assume
 		case "select-few-dbs":
 			opt = gen.Opts{SubqDepth: 5, SubqProb: 0.5, MaxDepth: 1, FewDBs: true, SubqInto: 0.3}
 			mask = -1
@@ -283,6 +379,15 @@ func checkC19(c *Ctx) (string, bool, []string) {
 		}
 		r.MergeCounts(local)
 	})
+	{
+		local := map[string]int64{}
+		for _, n := range []int{1, 2, 7, 15, 16, 17, 31, 32, 33, 40, 63, 64, 65, 100, 257, 1000} {
+			for _, k := range []int{0, n / 2, n - 1} {
+				c19Many(c, n, k, local)
+			}
+		}
+		r.MergeCounts(local)
+	}
 	for _, kd := range gen.Kinds {
 		r.Require(r.Counter("statements."+kd.Name) > 0, "kind "+kd.Name+" never checked")
 	}
